@@ -309,7 +309,7 @@ def graph_layer(ctx):
     stats = {}
     quick = ctx.tier == 'quick'
     # replay every k-th graph of the big enumerations (seeded)
-    share_q = {'core4': 2, 'cont3': 3} if quick else {'cont3': 2}
+    share_q = {'core4': 3, 'cont3': 4} if quick else {'cont3': 2}
     try:
         idx = 0
         cfgs = [(name, c, share) for name, c, share in mc_configs(ctx.tier)
@@ -365,7 +365,7 @@ def sim_configs(tier):
     q = tier == 'quick'
     c = cfg(CORE_LEAVES | ALL_CONT | {'arr', 'int'}, 7, 10, deg=3, pairs=2, nkeys=3)
     c['check_deadlock'] = False
-    return [('sim7', c, 400 if q else 4000, 150)]
+    return [('sim7', c, 300 if q else 4000, 150)]
 
 
 class _Single:
